@@ -49,6 +49,9 @@ type c09desc struct {
 	Seed     int64    `json:"seed,omitempty"`
 	Workers  int      `json:"workers,omitempty"`
 	Script   []c09op  `json:"script,omitempty"`
+	Shrinks  []int    `json:"shrinks,omitempty"`  // resize-busy: non-waiting shrink targets issued while all workers are busy
+	N        int      `json:"n,omitempty"`        // resize-busy: the count requested last
+	Wait     bool     `json:"wait,omitempty"`     // resize-busy: wait flag of the last request
 	Schedule []string `json:"schedule,omitempty"` // controlled scenarios: the forced interleaving, for the reader
 }
 
@@ -207,7 +210,7 @@ func (r *c09run) checkAllRanOnce(when string) {
 
 // ---------------------------------------------------------------- controlled scenarios
 
-var c09controlled = []string{"lost-wakeup-fresh", "lost-wakeup-after-task", "lost-wakeup-shrink", "lost-wakeup-two-workers"}
+var c09controlled = []string{"lost-wakeup-fresh", "lost-wakeup-after-task", "lost-wakeup-shrink", "lost-wakeup-two-workers", "lost-wakeup-at-wait"}
 
 func c09Controlled(c *Ctx, name string) {
 	desc := c09desc{Scenario: name}
@@ -222,6 +225,9 @@ func c09Controlled(c *Ctx, name string) {
 		desc.Schedule = []string{"SetWorkerCount(1): worker 1 started", "worker 1: kill check reads 0, pops nil (held)",
 			"SetWorkerCount(0,false): workerKill=1, Broadcast - runs to completion", "worker 1 released",
 			"no further call: the worker must leave (WorkerCount 0)"}
+	case "lost-wakeup-at-wait":
+		desc.Schedule = []string{"worker: re-check done, about to Wait, holds L (held)", "AddTask: Push; its Signal needs L",
+			"if AddTask returns although the worker holds L, the Signal was sent without L", "worker released: Wait", "task must run"}
 	case "lost-wakeup-two-workers":
 		desc.Schedule = []string{"SetWorkerCount(2): workers started", "both workers: getTask pops nil (held)",
 			"AddTask(t1), AddTask(t2) run to completion", "workers released", "no further call: t1 and t2 must be executed"}
@@ -286,6 +292,43 @@ func c09Controlled(c *Ctx, name string) {
 			r.violate("lost-wakeup", fmt.Sprintf("a task accepted by AddTask while the worker was between its empty Pop and its Wait was not executed within %v although the pool has %d worker(s) and no further call was made (lost wake-up)", c09Bound, n))
 		}
 		<-swcDone
+	case "lost-wakeup-at-wait":
+		// the hold point lies inside the L region between the worker's last check and its Wait:
+		// a correct AddTask cannot finish before the worker is released (it needs L to signal)
+		rec.setHold("pool.idle.wait", 1)
+		go func() {
+			defer close(swcDone)
+			defer func() { recover() }()
+			r.tp.SetWorkerCount(1, false)
+		}()
+		if !rec.awaitHeld("pool.idle.wait", 1, c09CallTime) {
+			c.Violate("harness-hold-point-not-reached", "worker never reported pool.idle.wait", desc)
+			rec.releaseAll()
+			return
+		}
+		<-swcDone
+		t := r.newTask()
+		addDone := make(chan struct{})
+		go func() {
+			defer close(addDone)
+			defer func() { recover() }()
+			r.tp.AddTask(t)
+			atomic.StoreInt32(&t.added, 1)
+		}()
+		select {
+		case <-addDone: // Signal was sent while the worker holds L and is not yet waiting
+		case <-time.After(300 * time.Millisecond): // blocked on L, as it must be
+		}
+		rec.releaseAll()
+		select {
+		case <-addDone:
+		case <-time.After(c09CallTime):
+			r.violate("pool-call-hangs", "AddTask did not return")
+			return
+		}
+		if !awaitPassive(c09Bound, ranAll) {
+			r.violate("lost-wakeup", fmt.Sprintf("a task was accepted by AddTask while the only worker was between its last queue check and its Wait (holding the condition's lock); it was not executed within %v, no further call made (the Signal was sent without the lock and lost)", c09Bound))
+		}
 	case "lost-wakeup-after-task":
 		if !r.call("SetWorkerCount(1,true)", func() { r.tp.SetWorkerCount(1, true) }) {
 			return
@@ -391,8 +434,8 @@ func c09RunScript(c *Ctx, desc c09desc) {
 	defer func() { r.finish(snap, drained) }()
 
 	var adders sync.WaitGroup
-	workers := 0         // requested worker count (this goroutine is the only one resizing)
-	settled := true      // the last resize waited, so WorkerCount() == workers is already true
+	workers := 0    // requested worker count (this goroutine is the only one resizing)
+	settled := true // the last resize waited, so WorkerCount() == workers is already true
 	addOne := func(t *c09Task) { r.tp.AddTask(t); atomic.StoreInt32(&t.added, 1) }
 	joinAdders := func() bool {
 		ch := make(chan struct{})
@@ -531,10 +574,161 @@ func c09RunScript(c *Ctx, desc c09desc) {
 	snap = r.snapshot()
 }
 
+// ---------------------------------------------------------------- resizes while every worker is busy
+
+// k workers, each kept busy by a task that blocks on a gate.  Sequential SetWorkerCount
+// calls: non-waiting shrinks (nothing can consume the kill count while everybody is busy),
+// then one last request N (a grow beyond k, or a shrink below k).  The tasks are released.
+// "Changing the worker count converges to the requested number": after quiescence the pool
+// has exactly N workers and every task ran once.  (N = k is excluded: that request is a
+// no-op in SetWorkerCount and leaves the earlier kill count standing - resize-overlap finding.)
+func c09ResizeBusy(c *Ctx, desc c09desc) {
+	r := c09start(c, desc)
+	var snap *c09snap
+	drained := false
+	defer func() { r.finish(snap, drained) }()
+	k, n := desc.Workers, desc.N
+	if k < 1 || n < 1 || n == k {
+		return
+	}
+	gate := make(chan struct{})
+	released := false
+	release := func() {
+		if !released {
+			released = true
+			close(gate)
+		}
+	}
+	defer release() // runs before finish(): no task may keep a worker for ever
+	if !r.call(fmt.Sprintf("SetWorkerCount(%d,true)", k), func() { r.tp.SetWorkerCount(k, true) }) {
+		return
+	}
+	for i := 0; i < k; i++ {
+		t := r.newTask()
+		t.gate = gate
+		if !r.call("AddTask", func() { r.tp.AddTask(t); atomic.StoreInt32(&t.added, 1) }) {
+			return
+		}
+	}
+	allStarted := func() bool {
+		r.tmu.Lock()
+		defer r.tmu.Unlock()
+		for _, t := range r.tasks {
+			if atomic.LoadInt32(&t.started) < 1 {
+				return false
+			}
+		}
+		return true
+	}
+	if !awaitPassive(c09Bound, allStarted) {
+		r.violate("lost-wakeup", fmt.Sprintf("%d tasks added to %d idle workers were not all started within %v, no further call made", k, k, c09Bound))
+		return
+	}
+	var calls sync.WaitGroup
+	// a SetWorkerCount(m>0, ...) that shrinks polls for an idle worker / for the count before it
+	// returns, which needs the tasks to be released: it runs on its own goroutine and the
+	// next call is issued once its workerKill store and Broadcast are recorded
+	resizeAsync := func(m int, wait bool) bool {
+		kills, bcasts := r.rec.countLabels("LSetKill"), r.rec.countLabels("LEBcast")
+		calls.Add(1)
+		go func() {
+			defer calls.Done()
+			defer func() { recover() }()
+			r.tp.SetWorkerCount(m, wait)
+		}()
+		if !awaitPassive(c09CallTime, func() bool {
+			return r.rec.countLabels("LSetKill") > kills && r.rec.countLabels("LEBcast") > bcasts
+		}) {
+			r.violate("pool-call-hangs", fmt.Sprintf("SetWorkerCount(%d,%v) did not store workerKill and broadcast", m, wait))
+			return false
+		}
+		return true
+	}
+	for _, m := range desc.Shrinks {
+		if m < 0 || m >= k {
+			continue
+		}
+		if m == 0 {
+			if !r.call("SetWorkerCount(0,false)", func() { r.tp.SetWorkerCount(0, false) }) {
+				return
+			}
+		} else if !resizeAsync(m, false) {
+			return
+		}
+	}
+	if n > k {
+		// grow: returns once the new workers exist and one of them is idle
+		if !r.call(fmt.Sprintf("SetWorkerCount(%d,%v)", n, desc.Wait), func() { r.tp.SetWorkerCount(n, desc.Wait) }) {
+			return
+		}
+	} else if !resizeAsync(n, desc.Wait) {
+		return
+	}
+	release()
+	done := make(chan struct{})
+	go func() { calls.Wait(); close(done) }()
+	select {
+	case <-done:
+	case <-time.After(c09CallTime):
+		r.violate("pool-call-hangs", "a SetWorkerCount call did not return after the tasks were released")
+		return
+	}
+	if !r.call("WaitAll", func() { r.tp.WaitAll() }) {
+		return
+	}
+	r.checkAllRanOnce("after WaitAll")
+	if r.bad {
+		return
+	}
+	// quiescence: the count is the requested one and stays there (a pending kill count would
+	// still be consumed: every sleeper has its wake-up, see C09_no_lost_wakeup I2)
+	deadline := time.Now().Add(2 * c09Bound)
+	last, since := -1, time.Now()
+	for {
+		got := r.tp.WorkerCount()
+		if got != last {
+			last, since = got, time.Now()
+		}
+		if got == n && time.Since(since) > 300*time.Millisecond {
+			break
+		}
+		if time.Now().After(deadline) {
+			r.violate("resize-not-converged", fmt.Sprintf("%d busy workers; non-waiting shrinks to %v, then SetWorkerCount(%d,%v); tasks released: the pool settles at %d workers instead of the %d requested last", k, desc.Shrinks, n, desc.Wait, got, n))
+			return
+		}
+		time.Sleep(2 * time.Millisecond)
+	}
+	drained = true
+	snap = r.snapshot()
+}
+
+var c09busyCorpus = []c09desc{
+	{Scenario: "resize-busy", Workers: 2, Shrinks: []int{0}, N: 6},
+	{Scenario: "resize-busy", Workers: 2, Shrinks: []int{0}, N: 6, Wait: true},
+	{Scenario: "resize-busy", Workers: 3, Shrinks: []int{1}, N: 5},
+	{Scenario: "resize-busy", Workers: 4, Shrinks: []int{0}, N: 2},
+	{Scenario: "resize-busy", Workers: 4, Shrinks: []int{2, 0, 1}, N: 3, Wait: true},
+	{Scenario: "resize-busy", Workers: 1, Shrinks: []int{0}, N: 2},
+}
+
+func c09BusyRandom(seed int64) c09desc {
+	rng := newC09Rng(seed)
+	d := c09desc{Scenario: "resize-busy", Seed: seed, Workers: 1 + rng.Intn(5), Wait: rng.Intn(2) == 0}
+	for i := rng.Intn(4); i > 0; i-- {
+		d.Shrinks = append(d.Shrinks, rng.Intn(d.Workers))
+	}
+	if d.Workers > 1 && rng.Intn(3) == 0 {
+		d.N = 1 + rng.Intn(d.Workers-1) // last request: a shrink below k
+	} else {
+		d.N = d.Workers + 1 + rng.Intn(5) // last request: a grow beyond k
+	}
+	return d
+}
+
 // ---------------------------------------------------------------- entry
 
 func runC09(c *Ctx) error {
-	c.Rule = "controlled: the lost wake-up window forced through the hooks (worker held after its empty Pop; AddTask / shrinking SetWorkerCount completed; worker released; bounded wait without any further call) in 4 variants; free-running: seeded scripts of 3-10 operations (burst of 1-40 tasks from 1-4 goroutines, single submission with passive wait, resize to 0..max with/without wait, WaitAll, pause) on 1..max workers, ending in WaitAll or JoinAll; every recorded trace is evaluated against the model; distinct by (scenario, seed)"
+	c.Rule = "controlled: the lost wake-up window forced through the hooks (worker held after its empty Pop; AddTask / shrinking SetWorkerCount completed; worker released; bounded wait without any further call) in 4 variants, plus the worker held between its last check and Wait while holding L; free-running: seeded scripts of 3-10 operations (burst of 1-40 tasks from 1-4 goroutines, single submission with passive wait, resize to 0..max with/without wait, WaitAll, pause) on 1..max workers, ending in WaitAll or JoinAll; resize-busy: 1-5 workers all kept busy by gated tasks, 0-3 sequential non-waiting shrinks, then one last request (grow beyond k or shrink below k, wait true/false), tasks released, the pool must settle at the count requested last (6 fixed + seeded random instances); every recorded trace is evaluated against the model; distinct by (scenario, seed)"
 	c.BeginCases("From Coq Require Import List ZArith.\nImport ListNotations.\nFrom Ecal Require Import Model.Pool Run.RunC09.", "case", 12)
 	if c.caseFiles == nil {
 		c.caseFiles = []string{} // a run that stops before any case is emitted must still write a list
@@ -546,6 +740,8 @@ func runC09(c *Ctx) error {
 		}
 		if d.Scenario == "script" {
 			c09RunScript(c, d)
+		} else if d.Scenario == "resize-busy" {
+			c09ResizeBusy(c, d)
 		} else {
 			c09Controlled(c, d.Scenario)
 		}
@@ -559,6 +755,14 @@ func runC09(c *Ctx) error {
 		for _, name := range c09controlled {
 			c09Controlled(c, name)
 		}
+	}
+	for _, d := range c09busyCorpus {
+		if !c.Enough() {
+			c09ResizeBusy(c, d)
+		}
+	}
+	for i := 0; i < c.Pick(14, 200) && !c.Enough() && c.vcount["resize-not-converged"] < 3; i++ {
+		c09ResizeBusy(c, c09BusyRandom(c.Seed*7919+int64(i)))
 	}
 	n := c.Pick(70, 1500)
 	maxW := 16
